@@ -35,7 +35,7 @@ def session(ctx, sid):
             # ... sent by the transceiver's own L1 or by some other program that knows the port: where a
             # transceiver sends (the port plan) does not depend on who has written to it
             other = ("127.0.0.1", rng.choice([40000, 40001, 5700, 6700, 5802])) if rng.random() < 0.4 else None
-            s.data(t, FC.tx_datagram(sim.trx[t].data_if._hdr_ver, fn % FC.HYPER, rng.randrange(8), 0, bytes(148)), remote=other)
+            s.data(t, FC.tx_datagram(sim.ver(t), fn % FC.HYPER, rng.randrange(8), 0, bytes(148)), remote=other)
         else:
             for _ in range(rng.randint(1, 4)):
                 s.tick()
